@@ -27,6 +27,7 @@ CHECK = dict(
 )
 
 NSHARDS = 16
+CASE_CPU_SECONDS = 30      # CPU time (ITIMER_PROF), not wall-clock
 
 
 def shards(tier, seed, scale):
@@ -494,6 +495,8 @@ def one_graph(rec, rng, world, shape, tag):
                               shape[k]))
     rec.distinct("|".join(sig))
     wit = dict(shape=shape, blocks=fmt_prog(ircfg, order))
+    if tag == "random":
+        rec.sample(wit, limit=1)
     has_cycle = any(k in reach_from(prog["succ"], k) for k in range(len(shape)))
     if has_cycle:
         rec.count("graphs_with_cycle")
@@ -568,21 +571,33 @@ def reach_from(succ, k):
 def run_shard(params, rec):
     common.quiet()
     rng = common.rng_for(params)
+    from vf.models import cpulimit
+    cpulimit.install()
     world = World()
+
+    def guarded(shape, tag):
+        try:
+            with cpulimit.cpu_limit(CASE_CPU_SECONDS):
+                one_graph(rec, rng, world, shape, tag)
+        except cpulimit.CpuTimeout:
+            rec.count("case_cpu_timeout")       # never a verdict; see floors
     for i in range(params["n"]):
-        one_graph(rec, rng, world, random_shape(rng), "random")
+        guarded(random_shape(rng), "random")
     # exhaustive sweep over small shapes, shared between the shards
     nsh = params.get("nshards", 1)
     for idx, shape in enumerate(sweep_shapes(params.get("sweep", 3))):
         if idx % nsh != params.get("shard", 0):
             continue
-        one_graph(rec, rng, world, shape, "sweep")
-    rec.sample(dict(note="sweep shapes enumerated up to %d blocks" % params.get("sweep", 3)))
+        guarded(shape, "sweep")
+    if params.get("shard", 0) == 0:
+        rec.sample(dict(note="sweep shapes enumerated up to %d blocks" % params.get("sweep", 3)))
 
 
 def floors(tier, counters, evaluations):
     miss = []
     g = counters.get("graphs:random", 0) + counters.get("graphs:sweep", 0)
+    if counters.get("case_cpu_timeout", 0) > 0.01 * max(1, g):
+        miss.append("more than 1%% of the cases ran out of CPU time (%d)" % counters.get("case_cpu_timeout", 0))
     if counters.get("rd_facts", 0) < 5 * g:
         miss.append("fewer than 5 reaching-definition facts per graph")
     if counters.get("du_edges", 0) < g:
